@@ -210,7 +210,7 @@ def gen_case(src):
         values[nf(t)] = primes[i]
     # optionally: first single-word name is bound to a context that has an entry named like another word (a.b vs name `a.b`)
     kind = src.weighted([(3, "alone"), (5, "binop"), (2, "paren"), (2, "if"), (3, "for"), (2, "quant"), (3, "ctx"), (2, "fn"), (2, "args"),
-                         (2, "between"), (2, "in"), (2, "filter-index"), (2, "filter-ctx"), (3, "path-head"), (1, "path-chain"), (2, "call"), (5, "glue-probe"), (3, "bound-ctx"), (4, "after-scope")])
+                         (2, "between"), (2, "in"), (2, "filter-index"), (2, "filter-ctx"), (3, "path-head"), (1, "path-chain"), (2, "call"), (5, "glue-probe"), (3, "bound-ctx"), (4, "after-scope"), (3, "nested-entry")])
     tb = T(src, words, names, values)
     extra_bind = []
     # bystanders: further bound names the expression never mentions, holding values of other shapes (empty / nested contexts, lists of
@@ -267,14 +267,29 @@ def gen_case(src):
         vt = spell(src, v)
         follow = src.choice(["+", "*", ">", "="]) if kind == "for" else src.choice([">", "<", "=", "!="])
         body_a = spell(src, v)
+        body_text = "%s %s (%s)" % (body_a, follow, t3)
+        body_node = ["arith", follow, ["name", nf(v)], n3] if follow in "+*" else ["cmp", follow, ["name", nf(v)], n3]
+        inner = src.weighted([(6, None), (2, "ctx"), (1, "for"), (1, "fn"), (1, "quant")])
+        if inner is not None:
+            # the variable is used inside ANOTHER construct that opens a scope of its own, nested in the one that introduces it
+            tb.labels.append("local-name-inside-nested-" + inner)
+            if inner == "ctx":
+                body_text, body_node = "{w9: %s}.w9" % body_text, ["path", ["ctx", [["w9", body_node]]], "w9"]
+            elif inner == "for":
+                body_text, body_node = "(for u9 in [1] return %s)[1]" % body_text, ["filter", ["for", [["u9", ["dl", ["list", [["num", "1"]]]]]], body_node], ["idx", ["num", "1"]]]
+            elif inner == "fn":
+                body_text, body_node = "(function(q9) %s)(0)" % body_text, ["call", ["fn", [["q9", None]], body_node], [["num", "0"]]]
+            elif kind == "quant" or follow not in "+*":
+                body_text, body_node = "some u9 in [1] satisfies %s" % body_text, ["some", [["u9", ["list", [["num", "1"]]]]], body_node]
+            else:
+                tb.labels.pop()
         if kind == "for":
-            body_node = ["arith", follow, ["name", nf(v)], n3] if follow in "+*" else ["cmp", follow, ["name", nf(v)], n3]
-            text = "for %s in [%s, %s] return %s %s (%s)" % (vt, t1, t2, body_a, follow, t3)
+            text = "for %s in [%s, %s] return %s" % (vt, t1, t2, body_text)
             node = ["for", [[nf(v), ["dl", ["list", [n1, n2]]]]], body_node]
         else:
             q = src.choice(["some", "every"])
-            text = "%s %s in [%s, %s] satisfies %s %s (%s)" % (q, vt, t1, t2, body_a, follow, t3)
-            node = [q, [[nf(v), ["list", [n1, n2]]]], ["cmp", follow, ["name", nf(v)], n3]]
+            text = "%s %s in [%s, %s] satisfies %s" % (q, vt, t1, t2, body_text)
+            node = [q, [[nf(v), ["list", [n1, n2]]]], body_node]
         tb.labels.append(kind + ":multiword-var" if len(v) > 1 else kind)
         if len(v) > 1:
             tb.uses_family = True
@@ -481,6 +496,45 @@ def gen_case(src):
             op = src.choice(["+", "*", "-"])
             text = "%s %s %s" % (text, op, t1)
             node = ["arith", op, node, n1]
+    elif kind == "nested-entry":
+        # an entry two levels down: inside a context nested in a bound context, or nested in the items of a bound list of contexts (its
+        # name occurs nowhere else); reached by a path and followed by an operator a name could go on with
+        cname, k1 = tb.local(), None
+        k1 = tb.local(extra={nf(cname)})
+        k2 = tb.local(extra={nf(cname), nf(k1)})
+        tb.bound.update({nf(cname), nf(k1), nf(k2)})
+        p1, p2 = PRIMES[len(names) + 2], PRIMES[len(names) + 3]
+        in_list = src.bool(0.6)
+        inner = lambda v: {"c": [[nf(k1), {"c": [[nf(k2), {"n": str(v)}]]}], ["idx9", {"n": "9"}]]}
+        inner_node = lambda v: ["ctx", [[nf(k1), ["ctx", [[nf(k2), ["num", str(v)]]]]], ["idx9", ["num", "9"]]]]
+        if in_list:
+            extra_bind.append([nf(cname), {"l": [inner(p1), inner(p2)]}])
+            head_text = "%s[%d]" % (spell(src, cname), 2)
+            head_node = ["filter", ["list", [inner_node(p1), inner_node(p2)]], ["idx", ["num", "2"]]]
+        else:
+            extra_bind.append([nf(cname), inner(p1)])
+            head_text, head_node = spell(src, cname), ["name", nf(cname)]
+        dot = src.choice([".", " . "])
+        text = head_text + dot + spell(src, k1) + dot + spell(src, k2)
+        node = ["path", ["path", head_node, nf(k1)], nf(k2)]
+        # after every `.` the longest bound name is chosen again: the case is asserted only when, at the head and behind each dot, that
+        # is exactly the name meant (no bound dotted spelling such as `b.c` reaches over a dot) and the names hold no symbol themselves
+        clean = not any(x in SYMS for x in k1 + k2 + cname)
+        clean = clean and longest_prefix(k1 + ["."] + k2, tb.bound) == len(k1) and longest_prefix(k2, tb.bound) == len(k2)
+        if not in_list:
+            clean = clean and longest_prefix(cname + ["."] + k1 + ["."] + k2, tb.bound) == len(cname)
+        if not clean:
+            tb.labels.append("partial-glue")
+            tb.partial = True
+        op = src.choice(["+", "*", "-", "/"])
+        sp = src.choice(["", " "])
+        if glue(k2, op, ["2"], tb.bound) != "A":
+            tb.labels.append("partial-glue")
+            tb.partial = True
+        text = "%s%s%s%s2" % (text, sp, op, sp)
+        node = ["arith", op, node, ["num", "2"]]
+        tb.labels.append("nested-entry:" + ("list-item" if in_list else "context"))
+        tb.uses_family = True
     else:  # call
         fname = tb.local()
         tb.bound.add(nf(fname))
